@@ -1,7 +1,7 @@
 """Failing-input search for C02 on the real code: count-min (min query) bounds and return values."""
 import core
 from corr.bloom import strategy
-from search.common import drive, shrink_ops
+from search.common import drive, keys_pool, shrink_ops
 
 
 def gen(rng):
@@ -10,6 +10,8 @@ def gen(rng):
     else:
         dims = {"width": rng.choice([1, 2, 3, 5, 50, 1000]), "depth": rng.choice([1, 2, 3, 5, 8])}
     keys = ["k%d" % i for i in range(rng.randint(1, 10))]
+    if rng.random() < 0.3:
+        keys = keys_pool(rng, len(keys))  # bytes keys and text beyond ASCII
     ops = []
     # a quarter of the histories use large amounts: the claim covers every total below 2^31 - 1
     amounts = [1, 1, 2, 3, 10] if rng.random() < 0.75 else [1, 7, 10**6, 9 * 10**7, 3 * 10**8, 2**27, 2**28 + 1, 2**30 - 5]
@@ -21,6 +23,8 @@ def gen(rng):
                 continue
             total += n
         ops.append((kind, rng.choice(keys), n))
+        if rng.random() < 0.06:
+            ops.append((rng.choice(["reload-bytes", "reload-file", "clear"]), None, 0))
     return {"dims": dims, "strat": rng.choice(["fnv", "md5", "custom", "dint:fnvseed"]), "keys": keys, "ops": ops}
 
 
@@ -32,6 +36,21 @@ def check(case):
     cnt = {}
     total = 0
     for step, (kind, key, n) in enumerate(case["ops"]):
+        if kind.startswith("reload"):
+            # the same history continues on the sketch loaded back from its export
+            if kind == "reload-bytes":
+                cms = CountMinSketch.frombytes(bytes(cms), hash_function=fn)
+            else:
+                with core.Scratch() as tmp:
+                    import os
+
+                    cms.export(os.path.join(tmp, "c.cms"))
+                    cms = CountMinSketch(filepath=os.path.join(tmp, "c.cms"), hash_function=fn)
+            continue
+        if kind == "clear":
+            cms.clear()
+            cnt, total = {}, 0
+            continue
         if kind == "rem":
             n = min(n, cnt.get(key, 0))
             if n <= 0:
